@@ -122,13 +122,22 @@ class _VarArgsRemover(ast.NodeTransformer):
                 return ast.Dict(keys=[], values=[])
         return node
 
+    def _is_dropped(self, value, name):
+        return isinstance(value, ast.Name) and value.id == name
+
     def visit_Call(self, node):  # noqa: N802
-        node = self.generic_visit(node)
-        return _replace(node,
+        # Only the splats of the dropped parameters go: f(*[...]) and
+        # f(**{...}) stay as they are.
+        node = _replace(node,
                        args=[arg for arg in node.args
-                          if not self.drop_args or not isinstance(arg, ast.Starred)],
+                          if not (self.drop_args
+                              and isinstance(arg, ast.Starred)
+                              and self._is_dropped(arg.value, self.vararg_name))],
                        keywords=[kw for kw in node.keywords
-                          if not self.drop_kwargs or kw.arg is not None])
+                          if not (self.drop_kwargs
+                              and kw.arg is None
+                              and self._is_dropped(kw.value, self.kwarg_name))])
+        return self.generic_visit(node)
 
 
 # Names of the temporaries that the inlined code assigns (by ":=") in the scope
